@@ -163,6 +163,41 @@ def correspond(ctx, scale):
                         failures.append({'key': f'{key}:index-range', 'what': f'{info}: indices span [{lo}, {hi}], outside [0, {sp["K"]})', 'case': dict(kw=sp['kw'], shape=shp)})
                     if loss is not None and sp['loss'] is not None and list(loss.shape) != list(sp['loss']):
                         failures.append({'key': f'{key}:loss-shape', 'what': f'{info}: loss shape {tuple(loss.shape)} != documented {sp["loss"]}', 'case': dict(kw=sp['kw'])})
+                    # shapes do not depend on the VALUES: on-code inputs (the quantized output fed back, a one-layer prefix decode, zeros) - where a
+                    # residual becomes exactly zero and "nothing is left to quantize" - give the same output / index / loss shapes as a generic input
+                    if not rg and out is not None:
+                        specials = [('fed-back', out.detach().clone()), ('zeros', torch.zeros(*shp))]
+                        if hasattr(mod, 'get_output_from_indices') and not isinstance(ret[1], (tuple, list)) and not sp.get('layers_axis_second'):
+                            try:
+                                with torch.no_grad():
+                                    pre = mod.get_output_from_indices(ret[1][..., :1])
+                                if tuple(pre.shape) == tuple(shp):
+                                    specials.append(('prefix-decode', pre.detach().clone()))
+                            except Exception:
+                                pass
+                        for sname, xs_ in specials:
+                            try:
+                                with torch.no_grad():
+                                    ret2 = mod(xs_)
+                            except Exception as ex:
+                                failures.append({'key': f'{key}:on-code:{sname}:exception:{type(ex).__name__}', 'what': f'{info}: {sname} input raised {ex!r}', 'case': dict(kw=sp['kw'], shape=shp, train=train)})
+                                continue
+                            ev += 1
+                            dist['on_code_inputs'] = dist.get('on_code_inputs', 0) + 1
+                            idx2 = ret2[1]
+                            if isinstance(idx2, (tuple, list)):
+                                idx2 = torch.stack(list(idx2))
+                            loss2 = ret2[2] if len(ret2) > 2 else None
+                            probs_ = []
+                            if tuple(ret2[0].shape) != tuple(out.shape):
+                                probs_.append(f'output shape {tuple(ret2[0].shape)} != {tuple(out.shape)}')
+                            if tuple(idx2.shape) != tuple(idx.shape):
+                                probs_.append(f'indices shape {tuple(idx2.shape)} != {tuple(idx.shape)}')
+                            if loss is not None and loss2 is not None and tuple(loss2.shape) != tuple(loss.shape):
+                                probs_.append(f'loss shape {tuple(loss2.shape)} != {tuple(loss.shape)}')
+                            if probs_:
+                                failures.append({'key': f'{key}:on-code:{sname}:shape', 'what': f'{info}: for the {sname} input ' + '; '.join(probs_) + ' (shapes depend on the values)',
+                                                 'case': dict(kw=sp['kw'], shape=shp, train=train, special=sname)})
         if len(samples) < 5 and sp['name'] != 'vq':
             samples.append(dict(cls=sp['name'], kw={k: (v if not callable(v) else str(v)) for k, v in sp['kw'].items()}, layout=sp['layout']))
     # quantize-dropout in training: dropped layers report -1 but indices stay integer-typed and keep the documented shape
